@@ -1,0 +1,70 @@
+//go:build verif
+
+package graph
+
+import "fmt"
+
+// Verification hooks (see /verif). Only compiled with the build tag `verif`.
+// They are process-global and meant for a single-threaded harness: leave them nil when building concurrently.
+var (
+	// VerifRootOrder, when non-nil, makes AssignWeights start its depth-first search from these node ids, in this
+	// order, before it falls back to map iteration for whatever is left.
+	VerifRootOrder []string
+	// VerifOnRoot is called for every node the natural (map iteration) loop of AssignWeights starts a search from.
+	VerifOnRoot func(nodeID string, terminal bool)
+	// VerifOnStructure is called by Build with the graph as constructed, before any weight is assigned.
+	VerifOnStructure func(wg *WeightedAuthorizationModelGraph)
+)
+
+func verifObserveRoot(wg *WeightedAuthorizationModelGraph, node string) {
+	if VerifOnRoot != nil {
+		nodeType := wg.nodes[node].nodeType
+		VerifOnRoot(node, nodeType == SpecificType || nodeType == SpecificTypeWildcard)
+	}
+}
+
+func verifObserveStructure(wg *WeightedAuthorizationModelGraph) {
+	if VerifOnStructure != nil {
+		VerifOnStructure(wg)
+	}
+}
+
+// verifAssignWeightsForced is the loop of AssignWeights with the iteration order taken from VerifRootOrder.
+// The harness cross-checks it against the natural loop on every run (same logged order => same result).
+func (wg *WeightedAuthorizationModelGraph) verifAssignWeightsForced() (bool, error) {
+	if VerifRootOrder == nil {
+		return false, nil
+	}
+
+	visited := make(map[string]bool)
+	ancestorPath := make([]*WeightedAuthorizationModelEdge, 0)
+	tupleCycleDependencies := make(map[string][]*WeightedAuthorizationModelEdge)
+
+	order := make([]string, 0, len(wg.nodes))
+	for _, node := range VerifRootOrder {
+		if _, ok := wg.nodes[node]; ok {
+			order = append(order, node)
+		}
+	}
+
+	for node := range wg.nodes {
+		order = append(order, node)
+	}
+
+	for _, node := range order {
+		if visited[node] {
+			continue
+		}
+
+		tupleCyles, err := wg.calculateNodeWeight(node, visited, ancestorPath, tupleCycleDependencies)
+		if err != nil {
+			return true, err
+		}
+
+		if len(tupleCyles) > 0 {
+			return true, fmt.Errorf("%w: %d tuple cycles found without resolution", ErrTupleCycle, len(tupleCyles))
+		}
+	}
+
+	return true, nil
+}
